@@ -131,6 +131,27 @@ func init() {
 		}
 		return I32s([]int32{n, p, pn, np, bn, ap})
 	}
+	Exec["bitmap.Next/Get1"] = func(a []V) string {
+		bm, i, e := c13Unrle(a[0]), a[1].I32(), a[2].I32()
+		n := bitmap.NextOne(bm, i, e)
+		gn := int64(-1)
+		if n >= 0 {
+			gn = int64(bitmap.Get1(bm, n))
+		}
+		p := bitmap.PrevOne(bm, i, e)
+		gp := int64(-1)
+		if p >= 0 {
+			gp = int64(bitmap.Get1(bm, p))
+		}
+		return L(I32(n), I(gn), I32(p), I(gp))
+	}
+	Exec["bitmap.Next/count"] = func(a []V) string {
+		bm, tr, i, e := c13Unrle(a[0]), a[1].Bool(), a[2].I32(), a[3].I32()
+		idx := bitmap.IndexRank64(bm, tr)
+		ri, _ := bitmap.Rank64(bm, idx, i)
+		re, _ := bitmap.Rank64(bm, idx, e)
+		return L(Int(len(c13IterNext(bm, i, e))), Int(len(c13IterPrev(bm, i, e))), I32(re-ri))
+	}
 }
 
 // c13wClass: how many all-zero words the scan steps over, and which power-of-two bit offsets
@@ -509,6 +530,12 @@ func genC13w(g *Gen) {
 		g.Do("bitmap.PrevOne/iter", L(w, Int(i), Int(e)), pre("IP/"))
 		if i < e {
 			g.Do("bitmap.NextPrev/dual", L(w, Int(i), Int(e)), pre("D/"))
+			if i < n {
+				g.Do("bitmap.Next/Get1", L(w, Int(i), Int(e)), pre("G/"))
+			}
+		}
+		if e < n {
+			g.Do("bitmap.Next/count", L(w, B(g.R.Bool()), Int(i), Int(e)), pre("C/"))
 		}
 	}
 	// one-word bitmaps x all boundary ranges
